@@ -238,6 +238,16 @@ func checkGrouped(e *Env, mt *MTable, q *QResult, dims []string, items []string,
 				return &Violation{"indistinguishable-fields", fmt.Sprintf("table %s has two fields that print alike (%s / %s); %q row %s: %s = %v, reference = %v", t.Name, t.field("fdup1").E.SQL(), t.field("fdup2").E.SQL(), sql, rowLine(q.Fields, r), fname, got, want)}
 			}
 			if !floatClose(got, want) {
+				if a, w := avgWavgClash(t); a != "" {
+					// the same finding without the planted fields: AVG(x) and
+					// WAVG(x, w) meet somewhere inside the table's expressions
+					if e.Known("C06-indistinguishable-fields") {
+						continue
+					}
+					return &Violation{"indistinguishable-fields", fmt.Sprintf("table %s uses both %s and %s, which print alike; %q row %s: %s = %v, reference = %v", t.Name, a, w, sql, rowLine(q.Fields, r), fname, got, want)}
+				}
+			}
+			if !floatClose(got, want) {
 				return &Violation{"value-mismatch", fmt.Sprintf("%q row %s: %s = %v, reference over the raw points %s of period (%v, %v] = %v", sql, rowLine(q.Fields, r), fname, got, ptIDs(b.pts), time.Duration(r.TS-P-BaseNanos), time.Duration(r.TS-BaseNanos), want)}
 			}
 		}
@@ -374,4 +384,42 @@ func execC06(e *Env, p *Plan) error {
 	}
 	n.Close()
 	return nil
+}
+
+// avgWavgClash reports an AVG(x) and a WAVG(x, w) over the same value that
+// occur anywhere in the table's field expressions (zenodb prints both as
+// AVG(x) and matches columns by that text).
+func avgWavgClash(t *TableDef) (string, string) {
+	avg, wavg := map[string]bool{}, map[string]string{}
+	var walk func(e *FieldExpr)
+	walk = func(e *FieldExpr) {
+		if e == nil {
+			return
+		}
+		switch e.Kind {
+		case "agg":
+			if e.Fn == "AVG" && !e.Bnd {
+				avg[e.X] = true
+			}
+			if e.Fn == "WAVG" && !e.Bnd {
+				wavg[e.X] = e.W
+			}
+		case "ref":
+			if f := t.field(e.Ref); f != nil && !(f.E.Kind == "ref" && f.E.Ref == e.Ref) {
+				walk(f.E)
+			}
+		}
+		walk(e.L)
+		walk(e.R)
+		walk(e.Sub)
+	}
+	for i := range t.Fields {
+		walk(t.Fields[i].E)
+	}
+	for x, w := range wavg {
+		if avg[x] {
+			return "AVG(" + x + ")", "WAVG(" + x + ", " + w + ")"
+		}
+	}
+	return "", ""
 }
